@@ -303,7 +303,7 @@ func c19Replay(tr *kernel.Trace) *Outcome {
 		}
 		return o
 	}
-	params := run.Chain.App.CfeminterKeeper.GetParams(run.Chain.Ctx())
+	params := run.Chain.MinterParams()
 	model, err := MintModelFrom(params)
 	if err != nil {
 		o.InfraErr = err
